@@ -60,7 +60,12 @@ func VerifC04_AuthenticReply() {
 	auth, integ := vSuite()
 	vs := vNewSession(auth, integ)
 	vAssume(vs.sess.AuthenticatedSequenceNumbers.Inbound != 0xffffffff)
-	cmd := &vSynthCmd{op: ipmi.OperationGetDeviceIDReq}
+	// the command is a plain one or Close Session (the one command a library might be
+	// tempted to treat leniently)
+	var cmd ipmi.Command = &vSynthCmd{op: ipmi.OperationGetDeviceIDReq}
+	if vBool() {
+		cmd = &ipmi.CloseSessionCmd{Req: ipmi.CloseSessionReq{ID: vs.sess.RemoteID}}
+	}
 	ctx, cancel := context.WithCancel(context.Background())
 	sid, seq := vU32(), vU32()
 	encrypted := vBool()
